@@ -96,13 +96,18 @@ Definition sess_claims (s : sess) : Prop := s_auth s = true \/ s_ip s <> None.
 
 Definition sres_spec (c : config) (s : sess) (r : sres) : Prop :=
   (forall f, In f (r_frames r) -> exists p d, f = ESess (s_mac s) (s_id s) p d) /\
-  (forall f sid, In f (r_frames r) -> ef_is ProtoIPCP 2 f = Some sid -> s_auth s = true /\ r_sess r <> None) /\
+  (forall f sid, In f (r_frames r) -> ef_is ProtoIPCP 2 f = Some sid ->
+     s_auth s = true /\ r_sess r <> None /\ pap_verdict_sent (r_frames r) (s_id s) = false /\
+     (forall s', r_sess r = Some s' -> s_auth s' = true)) /\
   match r_sess r with
-  | None => True
+  | None => pap_verdict_sent (r_frames r) (s_id s) = false
   | Some s' => s_id s' = s_id s /\ s_mac s' = s_mac s /\ s_inst s' = s_inst s /\
                (sess_ok s -> sess_ok s') /\
                (sess_claims s' ->
                   sess_claims s \/
+                  (sent_on ProtoPAP 2 (r_frames r) (s_id s) = true /\ (c_radius c = true -> r_rad r = 1))) /\
+               (s_auth s' = true ->
+                  (s_auth s = true /\ pap_verdict_sent (r_frames r) (s_id s) = false) \/
                   (sent_on ProtoPAP 2 (r_frames r) (s_id s) = true /\ (c_radius c = true -> r_rad r = 1)))
   end.
 
@@ -127,11 +132,16 @@ Ltac frames_tac :=
 Ltac conj := repeat match goal with |- _ /\ _ => split end.
 
 Ltac spec_leaf :=
-  unfold sres_spec, keep, sess_ok, sess_claims, ppp_frame, sent_on, ProtoLCP, ProtoPAP, ProtoIPCP in *; cbn;
+  unfold sres_spec, keep, sess_ok, sess_claims, pap_verdict_sent, ppp_frame, sent_on, ProtoLCP, ProtoPAP, ProtoIPCP in *; cbn;
   split; [intros f Hf; frames_tac; eauto
-         | split; [intros f sid Hf He; frames_tac; cbn in He; try discriminate; try (split; [assumption|discriminate])
+         | split; [intros f sid Hf He; frames_tac; cbn in He; try discriminate;
+                   try (split; [assumption | split; [discriminate | split; [reflexivity |
+                          let s' := fresh "s'" in let Hs' := fresh "Hs'" in
+                          intros s' Hs'; inversion Hs'; subst; cbn; assumption]]])
                   | try exact I; conj; try reflexivity; try tauto; try discriminate; try congruence;
                     try (intros [?|?]; [discriminate | tauto]);
+                    try (let Hx := fresh "Hx" in intros Hx; discriminate Hx);
+                    try (let Hx := fresh "Hx" in intros Hx; left; split; [exact Hx | reflexivity]);
                     try (intros _; right; rewrite N.eqb_refl; split; [reflexivity | intros; first [reflexivity | congruence]]) ]].
 
 Lemma handle_lcp_spec c st s payload : sres_spec c s (handle_lcp c st s payload).
@@ -146,7 +156,7 @@ Qed.
 
 Lemma handle_pap_spec c st s payload oracle : sres_spec c s (handle_pap c st s payload oracle).
 Proof.
-  unfold handle_pap. destruct (parse_pap payload) as [id|]; [|spec_leaf].
+  unfold handle_pap. destruct (parse_pap payload) as [[id user]|]; [|spec_leaf].
   destruct (c_radius c) eqn:Er.
   - destruct (oracle =? 0) eqn:Eo.
     + apply N.eqb_eq in Eo. subst oracle. unfold start_ipcp.
@@ -174,125 +184,293 @@ Proof.
   destruct (proto =? ProtoIPCP); [apply handle_ipcp_spec|]. spec_leaf.
 Qed.
 
+(* ------------------------------------------------------------------ "that same session": creation indexes
+   identify records — no two records of the table share one, and every index in use is below the
+   counter the next PADR will take its index from (so an index is never given out twice). *)
+Record InvI (st : state) : Prop := {
+  ii_lt : forall s, In s (st_sessions st) -> s_inst s < st_ninst st;
+  ii_inst : NoDup (map s_inst (st_sessions st));
+  ii_ids : NoDup (map s_id (st_sessions st)) }.
+
+Lemma nodup_map_filter {A B} (f : A -> B) (p : A -> bool) l : NoDup (map f l) -> NoDup (map f (filter p l)).
+Proof.
+  induction l as [|y l IH]; cbn; [auto|]. intros ND. inversion ND as [|? ? Hy ND']; subst.
+  destruct (p y); cbn; auto. constructor; auto. intros H. apply Hy. apply in_map_iff in H.
+  destruct H as [x [E H]]. apply filter_In in H. rewrite <- E. apply in_map. tauto.
+Qed.
+
+Lemma nodup_inst_insert s' l :
+  NoDup (map s_inst l) -> ~ In (s_inst s') (map s_inst l) -> NoDup (map s_inst (insert_sess s' l)).
+Proof.
+  induction l as [|y l IH]; cbn; intros ND Hn.
+  - constructor; [tauto|constructor].
+  - destruct (s_id s' <? s_id y); cbn.
+    + constructor; [cbn; tauto|exact ND].
+    + inversion ND as [|? ? Hy ND']; subst. constructor.
+      * intros H. apply in_map_iff in H. destruct H as [x [E H]]. apply in_insert in H.
+        destruct H as [->|H]; [apply Hn; left; auto|apply Hy; rewrite <- E; apply in_map; exact H].
+      * apply IH; [exact ND'|tauto].
+Qed.
+
+Lemma inst_replace l s s' :
+  NoDup (map s_id l) -> In s l -> s_id s' = s_id s -> s_inst s' = s_inst s ->
+  map s_inst (replace_sess l s') = map s_inst l.
+Proof.
+  intros ND Hs Eid Einst. unfold replace_sess. rewrite map_map. apply map_ext_in. intros a Ha.
+  destruct (s_id a =? s_id s') eqn:E; [|reflexivity]. apply N.eqb_eq in E.
+  assert (a = s) by (eapply nodup_id_inj; eauto; congruence). subst a. exact Einst.
+Qed.
+
+Lemma drop_invI st s av al : InvI st -> InvI (drop_session st s av al).
+Proof.
+  intros [H1 H2 H3]. constructor; cbn.
+  - intros x Hx. apply in_remove in Hx. apply H1; tauto.
+  - apply nodup_map_filter; auto.
+  - apply nodup_remove; auto.
+Qed.
+
+Lemma step_invI c st o : InvI st -> InvI (fst (fst (step c st o))).
+Proof.
+  intros HI. unfold step, step_g. cbn [g_copy gates_on]. unfold step_h.
+  destruct (negb _); [exact HI|].
+  destruct (op_frame o) as [code sid tags|code sid proto payload|]; [| |exact HI].
+  - destruct (code =? CodePADI).
+    { unfold handle_padi. destruct (match find_tag tags TagServiceName with Some _ => _ | None => _ end); exact HI. }
+    destruct (code =? CodePADR).
+    { unfold handle_padr. destruct (find_tag tags TagACCookie); [|exact HI].
+      destruct (65535 <=? blen_s (st_sessions st)); [exact HI|].
+      destruct (find_id _ _ _) as [id|] eqn:Ef; [|exact HI]. apply find_id_fresh in Ef.
+      destruct HI as [H1 H2 H3]. unfold lcp_request. constructor; cbn.
+      - intros x Hx. apply in_insert in Hx. destruct Hx as [->|Hx]; cbn; [lia|]. specialize (H1 x Hx). lia.
+      - apply nodup_inst_insert; auto. cbn. intros H. apply in_map_iff in H. destruct H as [x [E Hx]].
+        specialize (H1 x Hx). lia.
+      - apply nodup_insert; auto. }
+    destruct (code =? CodePADT); [|exact HI].
+    unfold handle_padt. destruct (find_sess (st_sessions st) sid) as [s|]; [|exact HI].
+    destruct (g_owner gates_on && negb (s_mac s =? op_src o)); [exact HI|]. cbn. apply drop_invI; auto.
+  - unfold handle_session. destruct (find_sess (st_sessions st) sid) as [s|] eqn:Ef; [|exact HI].
+    apply find_sess_some in Ef. destruct Ef as [Hs _].
+    destruct (g_owner gates_on && negb (s_mac s =? op_src o)); [exact HI|].
+    pose proof (handle_ppp_spec c st (bump_in s) proto payload (op_rad o)) as [_ [_ Ss]].
+    destruct (r_sess _) as [s'|]; cbn; [|apply drop_invI; auto].
+    destruct Ss as [Eid [_ [Einst _]]]. cbn [s_id s_inst bump_in] in Eid, Einst.
+    destruct HI as [H1 H2 H3]. constructor; cbn.
+    + intros x Hx. apply in_replace in Hx. destruct Hx as [->|[Hx _]]; [rewrite Einst|]; auto.
+    + rewrite (inst_replace _ s s'); auto.
+    + rewrite ids_replace. exact H3.
+Qed.
+
+
 (* ------------------------------------------------------------------ table-level invariant *)
-Record Inv (st : state) (acc : list N) : Prop := {
+Record Inv (st : state) (acc cur : list N) : Prop := {
   inv_ok : forall s, In s (st_sessions st) -> sess_ok s;
   inv_claims : forall s, In s (st_sessions st) -> sess_claims s -> In (s_inst s) acc;
+  inv_cur : forall s, In s (st_sessions st) -> s_auth s = true -> In (s_inst s) cur;
   inv_nodup : NoDup (map s_id (st_sessions st)) }.
 
-Lemma Inv_incl st a b : Inv st a -> incl a b -> Inv st b.
-Proof. intros [H1 H2 H3] Hi. constructor; auto. Qed.
+Lemma Inv_incl st a b cu cu' : Inv st a cu -> incl a b -> incl cu cu' -> Inv st b cu'.
+Proof. intros [H1 H2 H3 H4] Hi Hj. constructor; auto. Qed.
 
-Lemma Inv_init c : Inv (init c) [].
+Lemma Inv_init c : Inv (init c) [] [].
 Proof. constructor; cbn; try tauto. constructor. Qed.
 
+(* frames that carry no PAP verdict leave the set of currently accepted sessions as it is *)
+Lemma nopap_verdicts r : (forall sid, pap_verdict_sent (o_frames r) sid = false) -> verdicts r = [].
+Proof. unfold verdicts. intros H. induction (o_sessions r) as [|y l IH]; cbn; [reflexivity|]. rewrite H. exact IH. Qed.
+
+Lemma nopap_accepts c r : (forall sid, pap_verdict_sent (o_frames r) sid = false) -> accepts c r = [].
+Proof.
+  unfold accepts. intros H. destruct (c_radius c && negb (o_radius r =? 1)); [reflexivity|].
+  induction (o_sessions r) as [|y l IH]; cbn; [reflexivity|]. specialize (H (s_id y)). unfold pap_verdict_sent in H.
+  apply orb_false_iff in H. destruct H as [H _]. rewrite H. exact IH.
+Qed.
+
+Lemma next_cur_keep c cur r k : ~ In k (verdicts r) -> In k cur -> In k (next_cur c cur r).
+Proof.
+  intros Hn Hk. unfold next_cur. apply in_or_app; right. apply filter_In. split; [exact Hk|].
+  destruct (mem k (verdicts r)) eqn:E; [|reflexivity]. exfalso. apply Hn. unfold mem in E. apply existsb_exists in E.
+  destruct E as [x [Hx E]]. apply N.eqb_eq in E. subst x. exact Hx.
+Qed.
+
+Lemma next_cur_nopap c cur r : (forall sid, pap_verdict_sent (o_frames r) sid = false) -> incl cur (next_cur c cur r).
+Proof. intros H k Hk. apply next_cur_keep; [rewrite (nopap_verdicts r H); intros []|exact Hk]. Qed.
+
+(* a verdict frame among frames that all travel on session id i names i *)
+Lemma verdict_on_sid fr m i sid :
+  (forall f, In f fr -> exists p d, f = ESess m i p d) -> pap_verdict_sent fr sid = true -> sid = i.
+Proof.
+  intros Hf H. unfold pap_verdict_sent, sent_on in H. apply orb_true_iff in H.
+  destruct H as [H|H]; apply existsb_exists in H; destruct H as [f [Hin He]]; destruct (Hf f Hin) as [p [d ->]];
+    cbn in He; destruct d as [|c0 d]; try discriminate; destruct (_ && _); try discriminate; apply N.eqb_eq in He; auto.
+Qed.
+
+Lemma nopap_all fr m i :
+  (forall f, In f fr -> exists p d, f = ESess m i p d) -> pap_verdict_sent fr i = false ->
+  forall sid, pap_verdict_sent fr sid = false.
+Proof.
+  intros Hf H sid. destruct (pap_verdict_sent fr sid) eqn:E; [|reflexivity].
+  pose proof (verdict_on_sid fr m i sid Hf E) as E'. subst sid. congruence.
+Qed.
+
 (* what one step guarantees, given the invariant before it *)
-Definition step_ok (c : config) (st : state) (acc : list N) (src : N) (x : state * out * list N) : Prop :=
+Definition step_ok (c : config) (st : state) (acc cur : list N) (src : N) (osid : option N) (x : state * out * list N) : Prop :=
   let st' := fst (fst x) in
   let r := snd (fst x) in
   o_sessions r = st_sessions st' /\
-  Inv st' (accepts c r ++ acc) /\
+  Inv st' (accepts c r ++ acc) (next_cur c cur r) /\
   (forall f sid, In f (o_frames r) -> ef_is ProtoIPCP 2 f = Some sid ->
-     exists s, In s (st_sessions st') /\ s_id s = sid /\ In (s_inst s) (accepts c r ++ acc)) /\
-  (forall s, In s (st_sessions st) -> s_mac s <> src -> In s (st_sessions st')).
+     exists s, In s (st_sessions st') /\ s_id s = sid /\ In (s_inst s) (next_cur c cur r)) /\
+  (forall s, In s (st_sessions st) -> s_mac s <> src -> In s (st_sessions st')) /\
+  (forall f d sid, In f (o_frames r) -> ef_sid f = Some (d, sid) ->
+     d = src /\ exists s, In s (st_sessions st' ++ st_sessions st) /\ s_id s = sid /\ s_mac s = d) /\
+  (forall f sid, In f (o_frames r) -> ef_pap_verdict f = Some sid -> osid = Some sid).
 
-Lemma noop_ok c st acc src : Inv st acc -> step_ok c st acc src (noop st).
+Lemma noop_ok c st acc cur src osid : Inv st acc cur -> step_ok c st acc cur src osid (noop st).
 Proof.
-  intros HI. unfold step_ok, noop; cbn. split; [reflexivity|]. split; [eapply Inv_incl; eauto; apply incl_appr, incl_refl|].
-  split; [intros f sid []|auto].
+  intros HI. unfold step_ok, noop; cbn. split; [reflexivity|].
+  split; [eapply Inv_incl; eauto; [apply incl_appr, incl_refl|apply next_cur_nopap; reflexivity]|].
+  split; [intros f sid []|]. split; [auto|]. split; [intros f d sid []|intros f sid []].
 Qed.
 
-Lemma padi_ok c st acc src tags : Inv st acc -> step_ok c st acc src (handle_padi c st src tags).
+Lemma padi_ok c st acc cur src osid tags : Inv st acc cur -> step_ok c st acc cur src osid (handle_padi c st src tags).
 Proof.
   intros HI. unfold handle_padi. destruct (match find_tag tags TagServiceName with Some _ => _ | None => _ end);
     [apply noop_ok; auto|].
-  unfold step_ok; cbn. split; [reflexivity|]. split; [eapply Inv_incl; eauto; apply incl_appr, incl_refl|].
-  split; [|auto]. intros f sid [<-|[]] He. cbn in He. discriminate.
+  unfold step_ok; cbn. split; [reflexivity|].
+  split; [eapply Inv_incl; eauto; [apply incl_appr, incl_refl|apply next_cur_nopap; reflexivity]|].
+  split; [intros f sid [<-|[]] He; cbn in He; discriminate|]. split; [auto|].
+  split; [intros f d sid [<-|[]] He; cbn in He; discriminate|]. intros f sid [<-|[]] He. cbn in He. discriminate.
 Qed.
 
-Lemma padr_ok c st acc src tags : Inv st acc -> step_ok c st acc src (handle_padr c st src tags).
+Lemma padr_ok c st acc cur src osid tags : Inv st acc cur -> step_ok c st acc cur src osid (handle_padr c st src tags).
 Proof.
   intros HI. unfold handle_padr. destruct (find_tag tags TagACCookie); [|apply noop_ok; auto].
   destruct (65535 <=? blen_s (st_sessions st)); [apply noop_ok; auto|].
   destruct (find_id _ _ _) as [id|] eqn:Ef.
-  2:{ unfold step_ok; cbn. split; [reflexivity|]. split; [eapply Inv_incl; eauto; apply incl_appr, incl_refl|].
-      split; [intros f sid []|auto]. }
-  apply find_id_fresh in Ef. destruct HI as [H1 H2 H3].
-  unfold step_ok, lcp_request; cbn. split; [reflexivity|]. split; [constructor; cbn|split].
+  2:{ unfold step_ok; cbn. split; [reflexivity|].
+      split; [eapply Inv_incl; eauto; [apply incl_appr, incl_refl|apply next_cur_nopap; reflexivity]|].
+      split; [intros f sid []|]. split; [auto|]. split; [intros f d sid []|intros f sid []]. }
+  apply find_id_fresh in Ef. destruct HI as [H1 H2 Hc H3].
+  unfold step_ok, lcp_request; cbn. split; [reflexivity|]. split; [constructor; cbn|split; [|split; [|split]]].
   - intros s Hs. apply in_insert in Hs. destruct Hs as [->|Hs]; [|auto]. unfold sess_ok; cbn. discriminate.
-  - intros s Hs Hc. apply in_insert in Hs. destruct Hs as [->|Hs]; [|apply in_or_app; right; auto].
-    destruct Hc as [Hc|Hc]; cbn in Hc; [discriminate|congruence].
+  - intros s Hs Hc'. apply in_insert in Hs. destruct Hs as [->|Hs]; [|apply in_or_app; right; auto].
+    destruct Hc' as [Hc'|Hc']; cbn in Hc'; [discriminate|congruence].
+  - intros s Hs Ha. apply in_insert in Hs. destruct Hs as [->|Hs]; [cbn in Ha; discriminate|].
+    apply next_cur_nopap; [intros sd; reflexivity|auto].
   - apply nodup_insert; auto.
   - intros f sid [<-|[<-|[]]] He; cbn in He; discriminate.
   - intros s Hs _. apply in_insert. auto.
+  - intros f d sid Hf He.
+    assert (Hd : d = src /\ sid = id).
+    { destruct Hf as [<-|[<-|[]]]; cbn in He; [destruct (id =? 0); [discriminate|]|]; inversion He; auto. }
+    destruct Hd as [-> ->]. split; [reflexivity|]. eexists. split; [apply in_or_app; left; apply in_insert; left; reflexivity|].
+    cbn. auto.
+  - intros f sid [<-|[<-|[]]] He; cbn in He; discriminate.
 Qed.
 
-Lemma drop_ok c st acc src s av al fr rad :
-  Inv st acc -> In s (st_sessions st) -> s_mac s = src ->
+Lemma drop_ok c st acc cur src osid s av al fr rad :
+  Inv st acc cur -> In s (st_sessions st) -> s_mac s = src ->
   (forall f sid, In f fr -> ef_is ProtoIPCP 2 f = Some sid -> False) ->
-  step_ok c st acc src (drop_session st s av al, mk_out (drop_session st s av al) fr rad false, @nil N).
+  (forall f, In f fr -> exists p d, f = ESess (s_mac s) (s_id s) p d) ->
+  (forall sid, pap_verdict_sent fr sid = false) ->
+  (forall f sd, In f fr -> ef_pap_verdict f = Some sd -> osid = Some sd) ->
+  step_ok c st acc cur src osid (drop_session st s av al, mk_out (drop_session st s av al) fr rad false, @nil N).
 Proof.
-  intros [H1 H2 H3] Hs Hm Hfr. unfold step_ok; cbn. split; [reflexivity|]. split; [constructor; cbn|split].
+  intros [H1 H2 Hc H3] Hs Hm Hfr Hsf Hnp Hvd. unfold step_ok; cbn. split; [reflexivity|]. split; [constructor; cbn|split; [|split; [|split]]].
   - intros x Hx. apply in_remove in Hx. apply H1; tauto.
-  - intros x Hx Hc. apply in_remove in Hx. apply in_or_app; right. apply H2; tauto.
+  - intros x Hx Hc'. apply in_remove in Hx. apply in_or_app; right. apply H2; tauto.
+  - intros x Hx Ha. apply in_remove in Hx. apply next_cur_nopap; [exact Hnp|]. apply Hc; tauto.
   - apply nodup_remove; auto.
   - intros f sid Hf He. exfalso; eauto.
   - intros x Hx Hne. apply in_remove. split; auto. intros E. apply Hne. rewrite <- Hm. f_equal.
     eapply nodup_id_inj; eauto.
+  - intros f d sid Hf He. destruct (Hsf f Hf) as [p [dd ->]]. cbn in He. inversion He; subst d sid.
+    split; [exact Hm|]. exists s. split; [apply in_or_app; right; exact Hs|auto].
+  - exact Hvd.
 Qed.
 
-Lemma padt_ok c st acc src sid : Inv st acc -> step_ok c st acc src (handle_padt gates_on c st src sid).
+Lemma padt_ok c st acc cur src osid sid : Inv st acc cur -> step_ok c st acc cur src osid (handle_padt gates_on c st src sid).
 Proof.
   intros HI. unfold handle_padt. destruct (find_sess (st_sessions st) sid) as [s|] eqn:Ef; [|apply noop_ok; auto].
   apply find_sess_some in Ef. destruct Ef as [Hs _]. cbn [g_owner gates_on andb].
   destruct (s_mac s =? src) eqn:Em; cbn [negb]; [|apply noop_ok; auto]. apply N.eqb_eq in Em.
-  cbn [orb]. apply drop_ok; auto; intros f sd [].
+  cbn [orb]. apply drop_ok; auto; try (intros f sd []); try (intros f []); try (intros sd; reflexivity).
 Qed.
 
 Lemma ef_is_sess m i p d proto code sid : ef_is proto code (ESess m i p d) = Some sid -> sid = i.
 Proof. cbn. destruct d; [discriminate|]. destruct (_ && _); [congruence|discriminate]. Qed.
 
-Lemma session_ok c st acc src sid proto payload oracle :
-  Inv st acc -> step_ok c st acc src (handle_session gates_on c st src sid proto payload oracle).
+Lemma ef_pap_verdict_sess m i p d sid : ef_pap_verdict (ESess m i p d) = Some sid -> sid = i.
+Proof. cbn. destruct d; [discriminate|]. destruct (_ && _); [congruence|discriminate]. Qed.
+
+Lemma session_ok c st acc cur src sid proto payload oracle :
+  Inv st acc cur -> InvI st -> step_ok c st acc cur src (Some sid) (handle_session gates_on c st src sid proto payload oracle).
 Proof.
-  intros HI. unfold handle_session.
+  intros HI HII. unfold handle_session.
   destruct (find_sess (st_sessions st) sid) as [s|] eqn:Ef; [|apply noop_ok; auto].
-  apply find_sess_some in Ef. destruct Ef as [Hs _]. cbn [g_owner g_auth gates_on andb].
+  apply find_sess_some in Ef. destruct Ef as [Hs Hsid]. cbn [g_owner g_auth gates_on andb].
   destruct (s_mac s =? src) eqn:Em; cbn [negb orb]; [|apply noop_ok; auto]. apply N.eqb_eq in Em.
   rewrite andb_false_r. cbn [app].
   pose proof (handle_ppp_spec c st (bump_in s) proto payload oracle) as Sp.
   destruct Sp as [Sf [Sa Ss]]. cbn [s_mac s_id bump_in] in Sf.
   destruct (r_sess (handle_ppp gates_on c st (bump_in s) proto payload oracle)) as [s'|] eqn:Er.
-  2:{ apply drop_ok; auto. intros f sd Hf He. destruct (Sa f sd Hf He) as [_ Hn]. apply Hn; reflexivity. }
-  destruct Ss as [Eid [Emac [Einst [Hok Hcl]]]]. cbn [s_id s_mac s_inst bump_in] in Eid, Emac, Einst.
-  destruct HI as [H1 H2 H3].
+  2:{ cbn [s_id bump_in] in Ss. apply drop_ok; auto.
+      - intros f sd Hf He. destruct (Sa f sd Hf He) as [_ [Hn _]]. apply Hn; reflexivity.
+      - eapply nopap_all; eauto.
+      - intros f sd Hf He. destruct (Sf f Hf) as [p [d ->]]. apply ef_pap_verdict_sess in He. congruence. }
+  destruct Ss as [Eid [Emac [Einst [Hok [Hcl Hau]]]]]. cbn [s_id s_mac s_inst s_auth bump_in] in Eid, Emac, Einst, Hau.
+  destruct HI as [H1 H2 Hc H3]. destruct HII as [_ Hinst _].
   assert (Hin' : In s' (replace_sess (st_sessions st) s')).
   { apply replace_has. rewrite Eid. apply in_map. exact Hs. }
   set (rr := handle_ppp gates_on c st (bump_in s) proto payload oracle) in *.
-  unfold step_ok; cbn. split; [reflexivity|].
-  assert (Hacc : sess_claims s' -> In (s_inst s') (accepts c (mk_out
-            {| st_sessions := replace_sess (st_sessions st) s'; st_macidx := st_macidx st; st_next := st_next st;
-               st_ninst := st_ninst st; st_avail := r_avail rr; st_alloc := r_alloc rr |} (r_frames rr) (r_rad rr) false) ++ acc)).
-  { intros Hc. apply in_or_app. destruct (Hcl Hc) as [Hc0|[Hsent Hrad]].
+  set (st' := {| st_sessions := replace_sess (st_sessions st) s'; st_macidx := st_macidx st; st_next := st_next st;
+                 st_ninst := st_ninst st; st_avail := r_avail rr; st_alloc := r_alloc rr |}).
+  set (r := mk_out st' (r_frames rr) (r_rad rr) false).
+  assert (Hacc1 : sent_on ProtoPAP 2 (r_frames rr) (s_id s) = true -> (c_radius c = true -> r_rad rr = 1) ->
+                  In (s_inst s') (accepts c r)).
+  { intros Hsent Hrad. unfold accepts; cbn.
+    assert (Eg : c_radius c && negb (r_rad rr =? 1) = false).
+    { destruct (c_radius c); [rewrite Hrad by reflexivity; reflexivity|reflexivity]. }
+    rewrite Eg. apply in_map. apply filter_In. split; [exact Hin'|]. rewrite Eid. exact Hsent. }
+  assert (Hacc : sess_claims s' -> In (s_inst s') (accepts c r ++ acc)).
+  { intros Hc0. apply in_or_app. destruct (Hcl Hc0) as [Hc1|[Hsent Hrad]].
     - right. rewrite Einst. apply H2; auto.
-    - left. unfold accepts; cbn.
-      assert (Eg : c_radius c && negb (r_rad rr =? 1) = false).
-      { destruct (c_radius c); [rewrite Hrad by reflexivity; reflexivity|reflexivity]. }
-      rewrite Eg. apply in_map. apply filter_In. split; [exact Hin'|]. rewrite Eid. exact Hsent. }
-  split; [constructor; cbn|split].
-  - intros x Hx. apply in_replace in Hx. destruct Hx as [->|[Hx _]]; [|auto]. apply Hok. apply (H1 s Hs).
-  - intros x Hx Hc. apply in_replace in Hx. destruct Hx as [->|[Hx _]]; [auto|]. apply in_or_app; right. auto.
-  - rewrite ids_replace. exact H3.
-  - intros f sd Hf He. destruct (Sa f sd Hf He) as [Ha _]. cbn in Ha.
+    - left. auto. }
+  (* another record's creation index is not among this step's verdicts *)
+  assert (Hother : forall x, In x (st_sessions st) -> s_id x <> s_id s' -> ~ In (s_inst x) (verdicts r)).
+  { intros x Hx Hne Hv. unfold verdicts in Hv. cbn in Hv. apply in_map_iff in Hv. destruct Hv as [y [Ey Hy]].
+    apply filter_In in Hy. destruct Hy as [Hy Hv]. apply (verdict_on_sid _ _ _ _ Sf) in Hv.
+    apply in_replace in Hy. destruct Hy as [->|[Hy Hne']]; [|congruence].
+    rewrite Einst in Ey. assert (s = x).
+    { clear - Hinst Hs Hx Ey. revert Hinst Hs Hx Ey. generalize (st_sessions st). induction l as [|z l IH]; cbn; [tauto|].
+      intros ND Ha Hb E. inversion ND as [|? ? Hn ND']; subst. destruct Ha as [->|Ha], Hb as [->|Hb]; auto.
+      - exfalso. apply Hn. rewrite E. apply in_map. exact Hb.
+      - exfalso. apply Hn. rewrite <- E. apply in_map. exact Ha. }
+    subst x. congruence. }
+  assert (HI' : Inv st' (accepts c r ++ acc) (next_cur c cur r)).
+  { constructor; cbn.
+    - intros x Hx. apply in_replace in Hx. destruct Hx as [->|[Hx _]]; [|auto]. apply Hok. apply (H1 s Hs).
+    - intros x Hx Hc0. apply in_replace in Hx. destruct Hx as [->|[Hx _]]; [auto|]. apply in_or_app; right. auto.
+    - intros x Hx Ha. apply in_replace in Hx. destruct Hx as [->|[Hx Hne]].
+      + destruct (Hau Ha) as [[Ha0 Hnp]|[Hsent Hrad]].
+        * rewrite Einst. apply next_cur_nopap; [|apply Hc; auto]. intros sd. cbn. eapply nopap_all; eauto.
+        * unfold next_cur. apply in_or_app; left. auto.
+      + apply next_cur_keep; [apply Hother; auto|apply Hc; auto].
+    - rewrite ids_replace. exact H3. }
+  unfold step_ok. cbn [fst snd]. split; [reflexivity|]. split; [exact HI'|]. split; [|split; [|split]].
+  - intros f sd Hf He. cbn in Hf. destruct (Sa f sd Hf He) as [_ [_ [_ Ha']]].
     destruct (Sf f Hf) as [p [d ->]]. apply ef_is_sess in He. subst sd.
-    exists s'. split; [exact Hin'|]. split; [exact Eid|]. apply in_or_app; right. rewrite Einst. apply H2; auto. left; exact Ha.
-  - intros x Hx Hne. apply replace_keeps; auto. rewrite Eid. intros E. apply Hne. rewrite <- Em. f_equal.
+    exists s'. split; [exact Hin'|]. split; [exact Eid|]. apply (inv_cur _ _ _ HI'); [exact Hin'|]. apply Ha'; reflexivity.
+  - intros x Hx Hne. cbn. apply replace_keeps; auto. rewrite Eid. intros E. apply Hne. rewrite <- Em. f_equal.
     eapply nodup_id_inj; eauto.
+  - intros f d sd Hf He. cbn in Hf. destruct (Sf f Hf) as [p [dd ->]]. cbn in He. inversion He; subst d sd.
+    split; [exact Em|]. exists s. split; [apply in_or_app; right; exact Hs|auto].
+  - intros f sd Hf He. cbn in Hf. destruct (Sf f Hf) as [p [d ->]]. apply ef_pap_verdict_sess in He. congruence.
 Qed.
 
-Lemma step_step_ok c st acc o : Inv st acc -> step_ok c st acc (op_src o) (step c st o).
+Lemma step_step_ok c st acc cur o : Inv st acc cur -> InvI st -> step_ok c st acc cur (op_src o) (op_sid o) (step c st o).
 Proof.
-  intros HI. unfold step, step_g. cbn [g_copy gates_on]. unfold step_h.
+  intros HI HII. unfold op_sid, step, step_g. cbn [g_copy gates_on]. unfold step_h.
   destruct (negb _); [apply noop_ok; auto|].
   destruct (op_frame o) as [code sid tags|code sid proto payload|]; [| |apply noop_ok; auto].
   - destruct (code =? CodePADI); [apply padi_ok; auto|].
@@ -313,16 +491,64 @@ Proof. revert st. induction a as [|x a IH]; intros st; cbn; [reflexivity|]. rewr
 Lemma outs_snoc g c ops o : outs_g g c (ops ++ [o]) = outs_g g c ops ++ [out_at_g g c ops o].
 Proof. unfold outs_g. rewrite outs_from_app. reflexivity. Qed.
 
+(* ------------------------------------------------------------------ creation indexes over runs *)
+Lemma exec_invI c ops : InvI (exec c ops).
+Proof.
+  induction ops as [|o ops IH] using rev_ind.
+  - constructor; cbn; try tauto; constructor.
+  - unfold exec. rewrite exec_snoc. apply step_invI. exact IH.
+Qed.
+
+Lemma inst_identifies c ops a b :
+  In a (st_sessions (exec c ops)) -> In b (st_sessions (exec c ops)) -> s_inst a = s_inst b -> a = b.
+Proof.
+  intros Ha Hb E. destruct (exec_invI c ops) as [_ H2 _]. revert H2 Ha Hb E. generalize (st_sessions (exec c ops)).
+  induction l as [|x l IH]; cbn; [tauto|]. intros ND Ha Hb E. inversion ND as [|? ? Hn ND']; subst.
+  destruct Ha as [->|Ha], Hb as [->|Hb]; auto.
+  - exfalso. apply Hn. rewrite E. apply in_map. exact Hb.
+  - exfalso. apply Hn. rewrite <- E. apply in_map. exact Ha.
+Qed.
+
+Lemma inst_below_counter c ops s : In s (st_sessions (exec c ops)) -> s_inst s < st_ninst (exec c ops).
+Proof. intros H. destruct (exec_invI c ops) as [H1 _ _]. auto. Qed.
+
 Definition acc_of (c : config) (ops : list op) : list N := flat_map (accepts c) (outs c ops).
+Definition cur_of (c : config) (ops : list op) : list N := fold_left (next_cur c) (outs c ops) [].
+
+Lemma cur_of_snoc c ops o : cur_of c (ops ++ [o]) = next_cur c (cur_of c ops) (out_at c ops o).
+Proof. unfold cur_of, outs. rewrite outs_snoc, fold_left_app. reflexivity. Qed.
+
+Lemma latest_step c rs cur r :
+  (forall k, In k cur -> accepted_latest c rs k) ->
+  forall k, In k (next_cur c cur r) -> accepted_latest c (rs ++ [r]) k.
+Proof.
+  intros H k Hk. unfold next_cur in Hk. apply in_app_or in Hk. destruct Hk as [Hk|Hk].
+  - exists rs, r, []. split; [reflexivity|]. split; [exact Hk|intros r' []].
+  - apply filter_In in Hk. destruct Hk as [Hk Hn]. destruct (H k Hk) as [pre [r0 [post [E [Ha Hp]]]]].
+    exists pre, r0, (post ++ [r]). split; [rewrite E, <- app_assoc; reflexivity|]. split; [exact Ha|].
+    intros r' Hr'. apply in_app_or in Hr'. destruct Hr' as [Hr'|[<-|[]]]; [apply Hp; exact Hr'|].
+    intros Hv. apply negb_true_iff in Hn. assert (mem k (verdicts r) = true); [|congruence].
+    apply existsb_exists. exists k. split; [exact Hv|apply N.eqb_refl].
+Qed.
+
+Lemma cur_of_latest c ops k : In k (cur_of c ops) -> accepted_latest c (outs c ops) k.
+Proof.
+  revert k. induction ops as [|o ops IH] using rev_ind; [intros k []|]. intros k Hk. rewrite cur_of_snoc in Hk.
+  unfold outs. rewrite outs_snoc. eapply latest_step; [exact IH|exact Hk].
+Qed.
+
+Lemma latest_accepted c rs k : accepted_latest c rs k -> accepted_in c rs k.
+Proof. intros [pre [r [post [E [H _]]]]]. exists r. split; [rewrite E; apply in_or_app; right; left; reflexivity|exact H]. Qed.
+
 
 Lemma acc_of_snoc c ops o : acc_of c (ops ++ [o]) = acc_of c ops ++ accepts c (out_at c ops o).
 Proof. unfold acc_of, outs. rewrite outs_snoc, flat_map_app. cbn. rewrite app_nil_r. reflexivity. Qed.
 
-Lemma exec_inv c ops : Inv (exec c ops) (acc_of c ops).
+Lemma exec_inv c ops : Inv (exec c ops) (acc_of c ops) (cur_of c ops).
 Proof.
   induction ops as [|o ops IH] using rev_ind; [apply Inv_init|].
-  destruct (step_step_ok c _ _ o IH) as [_ [HI _]].
-  unfold exec. rewrite exec_snoc. eapply Inv_incl; [exact HI|].
+  destruct (step_step_ok c _ _ _ o IH (exec_invI c ops)) as [_ [HI _]].
+  unfold exec. rewrite exec_snoc. eapply Inv_incl; [exact HI| |rewrite cur_of_snoc; apply incl_refl].
   rewrite acc_of_snoc. intros k Hk. apply in_app_or in Hk. apply in_or_app. tauto.
 Qed.
 
@@ -331,34 +557,58 @@ Proof. unfold acc_of. intros H. apply in_flat_map in H. exact H. Qed.
 
 Lemma snapshot_table : snapshot_is_table gates_on.
 Proof.
-  intros c ops o. destruct (step_step_ok c _ _ o (exec_inv c ops)) as [H _].
+  intros c ops o. destruct (step_step_ok c _ _ _ o (exec_inv c ops) (exec_invI c ops)) as [H _].
   rewrite exec_snoc. exact H.
 Qed.
 
 Lemma established_gate : established_after_auth gates_on.
 Proof.
   intros c ops o s Hs He. rewrite snapshot_table in Hs. apply acc_of_accepted.
-  destruct (exec_inv c (ops ++ [o])) as [H1 H2 _]. apply H2; auto. left. apply H1; auto.
+  destruct (exec_inv c (ops ++ [o])) as [H1 H2 _ _]. apply H2; auto. left. apply H1; auto.
+Qed.
+
+Lemma established_gate_latest : established_after_latest_auth gates_on.
+Proof.
+  intros c ops o s Hs He. rewrite snapshot_table in Hs. apply cur_of_latest.
+  destruct (exec_inv c (ops ++ [o])) as [H1 _ H3 _]. apply H3; auto. apply H1; auto.
 Qed.
 
 Lemma clientip_gate : clientip_after_auth gates_on.
 Proof.
   intros c ops o s Hs Hip. rewrite snapshot_table in Hs. apply acc_of_accepted.
-  destruct (exec_inv c (ops ++ [o])) as [H1 H2 _]. apply H2; auto. right. exact Hip.
+  destruct (exec_inv c (ops ++ [o])) as [H1 H2 _ _]. apply H2; auto. right. exact Hip.
+Qed.
+
+Lemma ipcp_ack_gate_latest : ipcp_ack_after_latest_auth gates_on.
+Proof.
+  intros c ops o f sid Hf He.
+  destruct (step_step_ok c _ _ _ o (exec_inv c ops) (exec_invI c ops)) as [Hsn [_ [Hfr _]]].
+  destruct (Hfr f sid Hf He) as [s [Hs [Hid Hacc]]]. exists s. split; [|split; [exact Hid|]].
+  - unfold out_at_g. unfold step, exec in Hsn. cbn beta zeta in Hsn. rewrite Hsn. exact Hs.
+  - apply cur_of_latest. rewrite cur_of_snoc. exact Hacc.
 Qed.
 
 Lemma ipcp_ack_gate : ipcp_ack_after_auth gates_on.
 Proof.
-  intros c ops o f sid Hf He.
-  destruct (step_step_ok c _ _ o (exec_inv c ops)) as [Hsn [_ [Hfr _]]].
-  destruct (Hfr f sid Hf He) as [s [Hs [Hid Hacc]]]. exists s. split; [|split; [exact Hid|]].
-  - unfold out_at_g. unfold step, exec in Hsn. cbn beta zeta in Hsn. rewrite Hsn. exact Hs.
-  - apply acc_of_accepted. rewrite acc_of_snoc. apply in_app_or in Hacc. apply in_or_app. tauto.
+  intros c ops o f sid Hf He. destruct (ipcp_ack_gate_latest c ops o f sid Hf He) as [s [Hs [Hid Hl]]].
+  exists s. split; [exact Hs|split; [exact Hid|apply latest_accepted; exact Hl]].
+Qed.
+
+Lemma emitted_owner : emitted_to_owner gates_on.
+Proof.
+  intros c ops o f d sid Hf He. destruct (step_step_ok c _ _ _ o (exec_inv c ops) (exec_invI c ops)) as [_ [_ [_ [_ [Hem _]]]]].
+  rewrite exec_snoc. apply (Hem f d sid); auto.
+Qed.
+
+Lemma verdict_requester : verdict_on_requester gates_on.
+Proof.
+  intros c ops o f sid Hf He. destruct (step_step_ok c _ _ _ o (exec_inv c ops) (exec_invI c ops)) as [_ [_ [_ [_ [_ Hv]]]]].
+  apply (Hv f sid); auto.
 Qed.
 
 Lemma ownership : mac_ownership gates_on.
 Proof.
-  intros c ops o s Hs Hne. destruct (step_step_ok c _ _ o (exec_inv c ops)) as [_ [_ [_ Hown]]].
+  intros c ops o s Hs Hne. destruct (step_step_ok c _ _ _ o (exec_inv c ops) (exec_invI c ops)) as [_ [_ [_ [Hown _]]]].
   rewrite exec_snoc. apply Hown; auto.
 Qed.
 
@@ -372,26 +622,29 @@ Qed.
 
 Lemma sess_eqb_refl s : sess_eqb s s = true.
 Proof.
-  unfold sess_eqb. rewrite !N.eqb_refl, Bool.eqb_reflx. destruct (s_ip s); cbn; rewrite ?N.eqb_refl; reflexivity.
+  unfold sess_eqb. rewrite !N.eqb_refl, Bool.eqb_reflx.
+  rewrite !(proj2 (bytes_eqb_eq _ _) eq_refl).
+  destruct (s_ip s), (s_hu s); cbn; rewrite ?N.eqb_refl, ?(proj2 (bytes_eqb_eq _ _) eq_refl); reflexivity.
 Qed.
 
 Lemma accept_model c st ms o :
-  m_prev ms = st_sessions st -> Inv st (m_acc ms) ->
+  m_prev ms = st_sessions st -> Inv st (m_acc ms) (m_cur ms) -> InvI st ->
   exists ms', accept c ms o (snd (fst (step c st o))) = inl ms' /\
-              m_prev ms' = st_sessions (fst (fst (step c st o))) /\ Inv (fst (fst (step c st o))) (m_acc ms').
+              m_prev ms' = st_sessions (fst (fst (step c st o))) /\
+              Inv (fst (fst (step c st o))) (m_acc ms') (m_cur ms').
 Proof.
-  intros Hp HI. destruct (step_step_ok c st (m_acc ms) o HI) as [Hsn [HI' [Hfr Hown]]].
+  intros Hp HI HII. destruct (step_step_ok c st (m_acc ms) (m_cur ms) o HI HII) as [Hsn [HI' [Hfr [Hown [Hem Hvd]]]]].
   set (r := snd (fst (step c st o))) in *. set (st' := fst (fst (step c st o))) in *.
-  destruct HI' as [H1 H2 H3].
+  destruct HI' as [H1 H2 Hc H3].
   unfold accept.
-  assert (E0 : established_ok (accepts c r ++ m_acc ms) r = true).
+  assert (E0 : established_ok (next_cur c (m_cur ms) r) r = true).
   { unfold established_ok. apply forallb_forall. intros s Hs. rewrite Hsn in Hs.
     destruct (s_state s =? StEstablished) eqn:E; cbn; [|reflexivity]. apply N.eqb_eq in E.
-    apply mem_In. apply H2; auto. left. apply H1; auto. }
+    apply mem_In. apply Hc; auto. apply H1; auto. }
   assert (E1 : clientip_ok (accepts c r ++ m_acc ms) r = true).
   { unfold clientip_ok. apply forallb_forall. intros s Hs. rewrite Hsn in Hs.
     destruct (s_ip s) eqn:E; [|reflexivity]. apply mem_In. apply H2; auto. right. congruence. }
-  assert (E2 : ipcp_ack_ok (accepts c r ++ m_acc ms) r = true).
+  assert (E2 : ipcp_ack_ok (next_cur c (m_cur ms) r) r = true).
   { unfold ipcp_ack_ok. apply forallb_forall. intros f Hf. destruct (ef_is ProtoIPCP 2 f) as [sid|] eqn:E; [|reflexivity].
     destruct (Hfr f sid Hf E) as [s [Hs [Hid Hacc]]]. apply existsb_exists. exists s. rewrite Hsn. split; [exact Hs|].
     apply andb_true_iff. split; [apply N.eqb_eq; exact Hid|apply mem_In; exact Hacc]. }
@@ -399,21 +652,29 @@ Proof.
   { unfold ownership_ok. apply forallb_forall. intros s Hs. rewrite Hp in Hs.
     destruct (s_mac s =? op_src o) eqn:E; cbn; [reflexivity|]. apply N.eqb_neq in E.
     apply existsb_exists. exists s. rewrite Hsn. split; [apply Hown; auto|apply sess_eqb_refl]. }
-  rewrite E0, E1, E2, E3. cbn. eexists. split; [reflexivity|]. cbn. split; [exact Hsn|]. constructor; auto.
+  assert (E4 : emitted_ok (m_prev ms) r = true).
+  { unfold emitted_ok. apply forallb_forall. intros f Hf. destruct (ef_sid f) as [[d sid]|] eqn:E; [|reflexivity].
+    destruct (Hem f d sid Hf E) as [_ [s [Hs [Hid Hmac]]]]. apply existsb_exists. exists s. rewrite Hsn, Hp.
+    split; [exact Hs|]. apply andb_true_iff. split; apply N.eqb_eq; assumption. }
+  assert (E5 : verdict_ok o r = true).
+  { unfold verdict_ok. apply forallb_forall. intros f Hf. destruct (ef_pap_verdict f) as [sid|] eqn:E; [|reflexivity].
+    rewrite (Hvd f sid Hf E). apply N.eqb_refl. }
+  rewrite E0, E1, E2, E3, E4, E5. cbn. eexists. split; [reflexivity|]. cbn. split; [exact Hsn|]. constructor; auto.
 Qed.
 
 Lemma monitor_accepts_from c st ms i ops :
-  m_prev ms = st_sessions st -> Inv st (m_acc ms) ->
+  m_prev ms = st_sessions st -> Inv st (m_acc ms) (m_cur ms) -> InvI st ->
   accept_trace caccept i (c, ms) (combine ops (outs_from gates_on c st ops)) = (0, 0).
 Proof.
-  revert st ms i. induction ops as [|o ops IH]; intros st ms i Hp HI; cbn; [reflexivity|].
-  destruct (accept_model c st ms o Hp HI) as [ms' [Ea [Hp' HI']]].
+  revert st ms i. induction ops as [|o ops IH]; intros st ms i Hp HI HII; cbn; [reflexivity|].
+  destruct (accept_model c st ms o Hp HI HII) as [ms' [Ea [Hp' HI']]].
   unfold caccept at 1. cbn [fst snd]. change (step_h gates_on c st o) with (step c st o). rewrite Ea. apply IH; auto.
+  apply (step_invI c st o HII).
 Qed.
 
 Lemma monitor_accepts_model c ops :
   accept_trace caccept 1 (c, sinit) (combine ops (outs c ops)) = (0, 0).
-Proof. apply monitor_accepts_from; [reflexivity|apply Inv_init]. Qed.
+Proof. apply monitor_accepts_from; [reflexivity|apply Inv_init|constructor; cbn; try tauto; constructor]. Qed.
 
 (* ------------------------------------------------------------------ each repair is necessary: witnesses *)
 Definition accepted_inb (c : config) (rs : list out) (k : N) : bool := existsb (fun r => mem k (accepts c r)) rs.
@@ -506,6 +767,33 @@ Lemma foreign_frame_example :
             st_sessions (exec cfg0 (w_happy ++ [w_padt 1 1])) = [].
 Proof. vm_compute. eexists. split; [left; reflexivity|]. repeat split; discriminate. Qed.
 
+Lemma reject_after_accept_example :
+  exists s, st_sessions (exec cfg0 (w_happy ++ [w_sess 1 1 ProtoPAP w_pap 1])) = [s] /\
+            s_state s = StClosed /\ s_auth s = false /\ s_ip s <> None /\
+            s_state (set_state s StEstablished) = StEstablished /\
+            o_frames (out_at cfg0 (w_happy ++ [w_sess 1 1 ProtoPAP w_pap 1]) (w_sess 1 1 ProtoIPCP (ctl 2 2 []) 0)) = [] /\
+            o_frames (out_at cfg0 (w_happy ++ [w_sess 1 1 ProtoPAP w_pap 1]) (w_sess 1 1 ProtoIPCP (ctl 1 7 []) 0)) = [] /\
+            map s_state (st_sessions (exec cfg0 (w_happy ++ [w_sess 1 1 ProtoPAP w_pap 1; w_sess 1 1 ProtoIPCP (ctl 2 2 []) 0]))) = [StClosed].
+Proof. vm_compute. eexists. split; [reflexivity|]. repeat split; discriminate. Qed.
+
+(* a foreign PADR that copies every tag of the owner's PADR (and its session id in the header) *)
+Definition w_padr_hu (src sid : N) : op :=
+  {| op_src := src; op_dst := 1;
+     op_frame := FDisc CodePADR sid [(TagServiceName, [105]); (TagHostUniq, [7;7]); (TagACCookie, [1;2;3;4])]; op_rad := 0 |}.
+Definition w_happy_hu : list op :=
+  [w_padr_hu 1 0; w_sess 1 1 ProtoLCP (ctl 2 1 []) 0; w_sess 1 1 ProtoPAP w_pap 0; w_sess 1 1 ProtoIPCP (ctl 1 7 []) 0;
+   w_sess 1 1 ProtoIPCP (ctl 2 2 []) 0].
+Definition w_new_sess (id mac inst : N) : sess :=
+  {| s_id := id; s_mac := mac; s_state := StLCP; s_auth := false; s_ip := None; s_lcpid := 0; s_pin := 0; s_pout := 0;
+     s_inst := inst; s_hu := Some [7;7]; s_svc := [105]; s_user := [] |}.
+Lemma foreign_padr_example :
+  exists a, In a (st_sessions (exec cfg0 w_happy_hu)) /\ s_mac a = 1 /\ s_hu a = Some [7;7] /\ s_state a = StEstablished /\
+            st_sessions (exec cfg0 (w_happy_hu ++ [w_padr_hu 2 1])) =
+              st_sessions (exec cfg0 w_happy_hu) ++ [fst (lcp_request cfg0 (w_new_sess 2 2 1))] /\
+            In (EDisc 2 CodePADS 2 [(TagServiceName, c_service cfg0); (TagHostUniq, [7;7])])
+               (o_frames (out_at cfg0 w_happy_hu (w_padr_hu 2 1))).
+Proof. vm_compute. eexists. split; [left; reflexivity|]. repeat split. left; reflexivity. Qed.
+
 (* ------------------------------------------------------------------ the monitor is sound for ANY trace
    (in particular the real server's): if it accepts, the four clauses hold at every step, stated on the
    observations alone. *)
@@ -513,24 +801,32 @@ Definition table_after (init : list sess) (pre : list (op * out)) : list sess :=
   fold_left (fun _ x => o_sessions (snd x)) pre init.
 
 Definition step_clauses (c : config) (rs : list out) (prev : list sess) (o : op) (r : out) : Prop :=
-  (forall s, In s (o_sessions r) -> s_state s = StEstablished -> accepted_in c rs (s_inst s)) /\
+  (forall s, In s (o_sessions r) -> s_state s = StEstablished -> accepted_latest c rs (s_inst s)) /\
   (forall s, In s (o_sessions r) -> s_ip s <> None -> accepted_in c rs (s_inst s)) /\
   (forall f sid, In f (o_frames r) -> ef_is ProtoIPCP 2 f = Some sid ->
-     exists s, In s (o_sessions r) /\ s_id s = sid /\ accepted_in c rs (s_inst s)) /\
-  (forall s, In s prev -> s_mac s <> op_src o -> In s (o_sessions r)).
+     exists s, In s (o_sessions r) /\ s_id s = sid /\ accepted_latest c rs (s_inst s)) /\
+  (forall s, In s prev -> s_mac s <> op_src o -> In s (o_sessions r)) /\
+  (forall f d sid, In f (o_frames r) -> ef_sid f = Some (d, sid) ->
+     exists s, In s (o_sessions r ++ prev) /\ s_id s = sid /\ s_mac s = d) /\
+  (forall f sid, In f (o_frames r) -> ef_pap_verdict f = Some sid -> op_sid o = Some sid).
 
 Lemma opt_eqb_eq a b : opt_eqb a b = true -> a = b.
 Proof. destruct a, b; cbn; try discriminate; auto. intros H. apply N.eqb_eq in H. congruence. Qed.
 
 Lemma sess_eqb_eq a b : sess_eqb a b = true -> a = b.
 Proof.
-  destruct a, b. unfold sess_eqb; cbn. rewrite !andb_true_iff, !N.eqb_eq.
-  intros [[[[[[[[H1 H2] H3] H4] H5] H6] H7] H8] H9]. apply eqb_prop in H4. apply opt_eqb_eq in H5. congruence.
+  destruct a as [a1 a2 a3 a4 a5 a6 a7 a8 a9 hu0 sv0 us0], b as [b1 b2 b3 b4 b5 b6 b7 b8 b9 hu1 sv1 us1].
+  unfold sess_eqb; cbn. rewrite !andb_true_iff, !N.eqb_eq.
+  intros [[[[[[[[[[[H1 H2] H3] H4] H5] H6] H7] H8] H9] H10] H11] H12]. apply eqb_prop in H4. apply opt_eqb_eq in H5.
+  apply bytes_eqb_eq in H11, H12.
+  assert (hu0 = hu1) by (destruct hu0, hu1; cbn in H10; try discriminate; [apply bytes_eqb_eq in H10|]; congruence).
+  congruence.
 Qed.
 
 Lemma accept_inl c ms o r ms' : accept c ms o r = inl ms' ->
-  ms' = {| m_prev := o_sessions r; m_acc := accepts c r ++ m_acc ms |} /\
+  ms' = {| m_prev := o_sessions r; m_acc := accepts c r ++ m_acc ms; m_cur := next_cur c (m_cur ms) r |} /\
   forall rs, (forall k, In k (accepts c r ++ m_acc ms) -> accepted_in c rs k) ->
+  (forall k, In k (next_cur c (m_cur ms) r) -> accepted_latest c rs k) ->
   step_clauses c rs (m_prev ms) o r.
 Proof.
   unfold accept.
@@ -538,17 +834,25 @@ Proof.
   destruct (clientip_ok _ r) eqn:E1; cbn; [|discriminate].
   destruct (ipcp_ack_ok _ r) eqn:E2; cbn; [|discriminate].
   destruct (ownership_ok _ _ r) eqn:E3; cbn; [|discriminate].
-  intros H; inversion H; subst; clear H. split; [reflexivity|]. intros rs Hrs.
+  destruct (emitted_ok _ r) eqn:E4; cbn; [|discriminate].
+  destruct (verdict_ok o r) eqn:E5; cbn; [|discriminate].
+  intros H; inversion H; subst; clear H. split; [reflexivity|]. intros rs Hrs Hcs.
   unfold established_ok in E0. unfold clientip_ok in E1. unfold ipcp_ack_ok in E2. unfold ownership_ok in E3.
-  rewrite forallb_forall in E0, E1, E2, E3. repeat split.
+  unfold emitted_ok in E4. unfold verdict_ok in E5.
+  rewrite forallb_forall in E0, E1, E2, E3, E4, E5. repeat split.
   - intros s Hs He. specialize (E0 s Hs). apply N.eqb_eq in He. rewrite He in E0. cbn in E0.
-    apply Hrs. apply mem_In. exact E0.
+    apply Hcs. apply mem_In. exact E0.
   - intros s Hs Hip. specialize (E1 s Hs). destruct (s_ip s); [|congruence]. apply Hrs. apply mem_In. exact E1.
   - intros f sid Hf He. specialize (E2 f Hf). rewrite He in E2. apply existsb_exists in E2.
     destruct E2 as [s [Hs Hb]]. apply andb_true_iff in Hb. destruct Hb as [Hid Hm]. apply N.eqb_eq in Hid.
-    exists s. split; [exact Hs|split; [exact Hid|]]. apply Hrs. apply mem_In. exact Hm.
+    exists s. split; [exact Hs|split; [exact Hid|]]. apply Hcs. apply mem_In. exact Hm.
   - intros s Hs Hne. specialize (E3 s Hs). apply N.eqb_neq in Hne. rewrite Hne in E3. cbn in E3.
     apply existsb_exists in E3. destruct E3 as [x [Hx He]]. apply sess_eqb_eq in He. subst x. exact Hx.
+  - intros f d sid Hf He. specialize (E4 f Hf). rewrite He in E4. apply existsb_exists in E4.
+    destruct E4 as [s [Hs Hb]]. apply andb_true_iff in Hb. destruct Hb as [Hid Hm]. apply N.eqb_eq in Hid, Hm.
+    exists s. auto.
+  - intros f sid Hf He. specialize (E5 f Hf). rewrite He in E5. destruct (op_sid o) as [x|]; [|discriminate].
+    apply N.eqb_eq in E5. congruence.
 Qed.
 
 Lemma accepted_in_mono c rs rs' k : accepted_in c rs k -> incl rs rs' -> accepted_in c rs' k.
@@ -556,18 +860,19 @@ Proof. intros [r [Hr Hk]] Hi. exists r. split; auto. Qed.
 
 Lemma monitor_sound_from c tr : forall ms i rs0,
   (forall k, In k (m_acc ms) -> accepted_in c rs0 k) ->
+  (forall k, In k (m_cur ms) -> accepted_latest c rs0 k) ->
   accept_trace caccept i (c, ms) tr = (0, 0) ->
   forall pre o r post, tr = pre ++ (o, r) :: post ->
   step_clauses c (rs0 ++ map snd pre ++ [r]) (table_after (m_prev ms) pre) o r.
 Proof.
-  induction tr as [|[o1 r1] tl IH]; intros ms i rs0 Hacc Hrun pre o r post Heq.
+  induction tr as [|[o1 r1] tl IH]; intros ms i rs0 Hacc Hcur Hrun pre o r post Heq.
   - destruct pre; discriminate.
   - cbn in Hrun. unfold caccept at 1 in Hrun. cbn [fst snd] in Hrun.
     destruct (accept c ms o1 r1) as [ms'|n] eqn:Ea; [|inversion Hrun; lia].
     destruct (accept_inl _ _ _ _ _ Ea) as [Ems Hcl].
     destruct pre as [|[o2 r2] pre'].
     + cbn in Heq. inversion Heq; subst o1 r1 tl. cbn [map app table_after fold_left].
-      apply Hcl. intros k Hk. apply in_app_or in Hk. destruct Hk as [Hk|Hk].
+      apply Hcl; [|apply latest_step; exact Hcur]. intros k Hk. apply in_app_or in Hk. destruct Hk as [Hk|Hk].
       * exists r. split; [apply in_or_app; right; left; reflexivity|exact Hk].
       * eapply accepted_in_mono; [apply Hacc; exact Hk|apply incl_appl, incl_refl].
     + cbn in Heq. inversion Heq; subst o2 r2 tl.
@@ -576,7 +881,9 @@ Proof.
       { rewrite Ems. cbn. intros k Hk. apply in_app_or in Hk. destruct Hk as [Hk|Hk].
         - exists r1. split; [apply in_or_app; right; left; reflexivity|exact Hk].
         - eapply accepted_in_mono; [apply Hacc; exact Hk|apply incl_appl, incl_refl]. }
-      specialize (IH Hacc' Hrun pre' o r post eq_refl).
+      assert (Hcur' : forall k, In k (m_cur ms') -> accepted_latest c (rs0 ++ [r1]) k).
+      { rewrite Ems. cbn. apply latest_step; exact Hcur. }
+      specialize (IH Hacc' Hcur' Hrun pre' o r post eq_refl).
       rewrite Ems in IH. cbn [m_prev] in IH. cbn [map snd app table_after fold_left].
       rewrite <- app_assoc in IH. exact IH.
 Qed.
@@ -587,101 +894,7 @@ Lemma monitor_sound c tr :
   step_clauses c (map snd pre ++ [r]) (table_after [] pre) o r.
 Proof.
   intros Hrun pre o r post Heq.
-  apply (monitor_sound_from c tr sinit 1 [] (fun k (H : In k []) => match H with end) Hrun pre o r post Heq).
+  apply (monitor_sound_from c tr sinit 1 [] (fun k (H : In k []) => match H with end)
+           (fun k (H : In k []) => match H with end) Hrun pre o r post Heq).
 Qed.
 
-(* ------------------------------------------------------------------ "that same session": creation indexes
-   identify records — no two records of the table share one, and every index in use is below the
-   counter the next PADR will take its index from (so an index is never given out twice). *)
-Record InvI (st : state) : Prop := {
-  ii_lt : forall s, In s (st_sessions st) -> s_inst s < st_ninst st;
-  ii_inst : NoDup (map s_inst (st_sessions st));
-  ii_ids : NoDup (map s_id (st_sessions st)) }.
-
-Lemma nodup_map_filter {A B} (f : A -> B) (p : A -> bool) l : NoDup (map f l) -> NoDup (map f (filter p l)).
-Proof.
-  induction l as [|y l IH]; cbn; [auto|]. intros ND. inversion ND as [|? ? Hy ND']; subst.
-  destruct (p y); cbn; auto. constructor; auto. intros H. apply Hy. apply in_map_iff in H.
-  destruct H as [x [E H]]. apply filter_In in H. rewrite <- E. apply in_map. tauto.
-Qed.
-
-Lemma nodup_inst_insert s' l :
-  NoDup (map s_inst l) -> ~ In (s_inst s') (map s_inst l) -> NoDup (map s_inst (insert_sess s' l)).
-Proof.
-  induction l as [|y l IH]; cbn; intros ND Hn.
-  - constructor; [tauto|constructor].
-  - destruct (s_id s' <? s_id y); cbn.
-    + constructor; [cbn; tauto|exact ND].
-    + inversion ND as [|? ? Hy ND']; subst. constructor.
-      * intros H. apply in_map_iff in H. destruct H as [x [E H]]. apply in_insert in H.
-        destruct H as [->|H]; [apply Hn; left; auto|apply Hy; rewrite <- E; apply in_map; exact H].
-      * apply IH; [exact ND'|tauto].
-Qed.
-
-Lemma inst_replace l s s' :
-  NoDup (map s_id l) -> In s l -> s_id s' = s_id s -> s_inst s' = s_inst s ->
-  map s_inst (replace_sess l s') = map s_inst l.
-Proof.
-  intros ND Hs Eid Einst. unfold replace_sess. rewrite map_map. apply map_ext_in. intros a Ha.
-  destruct (s_id a =? s_id s') eqn:E; [|reflexivity]. apply N.eqb_eq in E.
-  assert (a = s) by (eapply nodup_id_inj; eauto; congruence). subst a. exact Einst.
-Qed.
-
-Lemma drop_invI st s av al : InvI st -> InvI (drop_session st s av al).
-Proof.
-  intros [H1 H2 H3]. constructor; cbn.
-  - intros x Hx. apply in_remove in Hx. apply H1; tauto.
-  - apply nodup_map_filter; auto.
-  - apply nodup_remove; auto.
-Qed.
-
-Lemma step_invI c st o : InvI st -> InvI (fst (fst (step c st o))).
-Proof.
-  intros HI. unfold step, step_g. cbn [g_copy gates_on]. unfold step_h.
-  destruct (negb _); [exact HI|].
-  destruct (op_frame o) as [code sid tags|code sid proto payload|]; [| |exact HI].
-  - destruct (code =? CodePADI).
-    { unfold handle_padi. destruct (match find_tag tags TagServiceName with Some _ => _ | None => _ end); exact HI. }
-    destruct (code =? CodePADR).
-    { unfold handle_padr. destruct (find_tag tags TagACCookie); [|exact HI].
-      destruct (65535 <=? blen_s (st_sessions st)); [exact HI|].
-      destruct (find_id _ _ _) as [id|] eqn:Ef; [|exact HI]. apply find_id_fresh in Ef.
-      destruct HI as [H1 H2 H3]. unfold lcp_request. constructor; cbn.
-      - intros x Hx. apply in_insert in Hx. destruct Hx as [->|Hx]; cbn; [lia|]. specialize (H1 x Hx). lia.
-      - apply nodup_inst_insert; auto. cbn. intros H. apply in_map_iff in H. destruct H as [x [E Hx]].
-        specialize (H1 x Hx). lia.
-      - apply nodup_insert; auto. }
-    destruct (code =? CodePADT); [|exact HI].
-    unfold handle_padt. destruct (find_sess (st_sessions st) sid) as [s|]; [|exact HI].
-    destruct (g_owner gates_on && negb (s_mac s =? op_src o)); [exact HI|]. cbn. apply drop_invI; auto.
-  - unfold handle_session. destruct (find_sess (st_sessions st) sid) as [s|] eqn:Ef; [|exact HI].
-    apply find_sess_some in Ef. destruct Ef as [Hs _].
-    destruct (g_owner gates_on && negb (s_mac s =? op_src o)); [exact HI|].
-    pose proof (handle_ppp_spec c st (bump_in s) proto payload (op_rad o)) as [_ [_ Ss]].
-    destruct (r_sess _) as [s'|]; cbn; [|apply drop_invI; auto].
-    destruct Ss as [Eid [_ [Einst _]]]. cbn [s_id s_inst bump_in] in Eid, Einst.
-    destruct HI as [H1 H2 H3]. constructor; cbn.
-    + intros x Hx. apply in_replace in Hx. destruct Hx as [->|[Hx _]]; [rewrite Einst|]; auto.
-    + rewrite (inst_replace _ s s'); auto.
-    + rewrite ids_replace. exact H3.
-Qed.
-
-Lemma exec_invI c ops : InvI (exec c ops).
-Proof.
-  induction ops as [|o ops IH] using rev_ind.
-  - constructor; cbn; try tauto; constructor.
-  - unfold exec. rewrite exec_snoc. apply step_invI. exact IH.
-Qed.
-
-Lemma inst_identifies c ops a b :
-  In a (st_sessions (exec c ops)) -> In b (st_sessions (exec c ops)) -> s_inst a = s_inst b -> a = b.
-Proof.
-  intros Ha Hb E. destruct (exec_invI c ops) as [_ H2 _]. revert H2 Ha Hb E. generalize (st_sessions (exec c ops)).
-  induction l as [|x l IH]; cbn; [tauto|]. intros ND Ha Hb E. inversion ND as [|? ? Hn ND']; subst.
-  destruct Ha as [->|Ha], Hb as [->|Hb]; auto.
-  - exfalso. apply Hn. rewrite E. apply in_map. exact Hb.
-  - exfalso. apply Hn. rewrite <- E. apply in_map. exact Ha.
-Qed.
-
-Lemma inst_below_counter c ops s : In s (st_sessions (exec c ops)) -> s_inst s < st_ninst (exec c ops).
-Proof. intros H. destruct (exec_invI c ops) as [H1 _ _]. auto. Qed.
